@@ -5,6 +5,7 @@ package main
 import (
 	"fmt"
 	"os"
+	"runtime"
 	"strconv"
 
 	"verifharness/checks"
@@ -16,6 +17,10 @@ func main() {
 		fmt.Fprintln(os.Stderr, "usage: vcheck <ID> quick|thorough | vcheck <ID> --replay <file> | vcheck --worker ...")
 		os.Exit(3)
 	}
+	// A program may change the number of Ps after the library's packages were
+	// initialised (a flag, a container quota): everything below runs with more
+	// Ps than there were at start-up.
+	runtime.GOMAXPROCS(runtime.GOMAXPROCS(0) + 7)
 	if d := os.Getenv("VERIF_DIR"); d != "" {
 		mon.VerifDir = d
 	}
